@@ -100,7 +100,9 @@ def gen_case(rng, thorough):
     n1 = rng.choice([3, 5, 7, 9] if not thorough else [3, 6, 9, 12])
     case = dict(kind=kind, ops=gen_ops(rng, n1, kind), later=gen_ops(rng, rng.choice([2, 3, 5]), kind),
                 live=rng.choice([1, 2]), pack=None, sched=None, probe_seed=rng.randrange(1 << 30))
-    if kind == 'file' and rng.random() < 0.45:
+    if rng.random() < (0.45 if kind == 'file' else 0.35):
+        # (MappingStorage packs with garbage collection: objects unreachable from the pack time on are
+        # then left out of the by-oid read-outs — what pack may remove is C07)
         case['pack'] = rng.randrange(1, n1)          # pack time: just after that many history ops
         # when the pack RUNS: right then, after the whole history (so transactions newer than the pack
         # time are copied by the packer), or while historical connections are open and live ones commit
@@ -206,6 +208,7 @@ class Record:
     def __init__(self):
         self.txns = []
         self.all_oids = set()
+        self.hidden = set()      # oids a garbage-collecting pack was entitled to remove
 
     def add(self, tid, writes):
         self.txns.append((tid, dict(writes)))
@@ -218,6 +221,21 @@ class Record:
                 for oid, v in w.items():
                     st[oid] = (tid, v)
         return st
+
+    def oids(self):
+        return sorted(self.all_oids - self.hidden)
+
+    def hide_garbage(self, packed_upto):
+        """after a garbage-collecting pack: objects not reachable from the root in the state at the
+        pack time nor in any later state may be gone"""
+        live = set()
+        st = self.state_at(packed_upto + 1)
+        maps = [st[0][1]] if 0 in st and st[0][1] is not None else []
+        maps += [w[0] for tid, w in self.txns if tid > packed_upto and 0 in w and w[0] is not None]
+        for m in maps:
+            live.update(m.values())
+        self.hidden |= {o for o in self.all_oids if o != 0 and o not in live and
+                        any(tid <= packed_upto and o in w for tid, w in self.txns)}
 
     def current(self):
         return self.state_at(1 << 70)
@@ -476,7 +494,7 @@ class World:
         ltid = rec.ltid()
         htm = transaction.TransactionManager()
         h = self.db.open(htm, at=p64(ltid))
-        oids = sorted(rec.all_oids)
+        oids = rec.oids()
         exp = expected_reads(rec, ltid + 1, oids)
         ctx = 'at=%d (vote window, %s)' % (ltid, mode)
 
@@ -545,7 +563,9 @@ class World:
             self.db.pack(t + days * 86400, days=days)
         else:
             self.db.pack(t)
-        self.obs.count('pack:%s:days=%d' % (self.case.get('pack_when', 'now'), days))
+        if self.case['kind'] != 'file':
+            self.rec.hide_garbage(self.packed_upto)
+        self.obs.count('pack:%s:%s:days=%d' % (self.case['kind'], self.case.get('pack_when', 'now'), days))
         self.obs.count('pack:txns-after-pack-time', sum(1 for tid, _ in self.rec.txns if tid > self.packed_upto))
 
     def close(self):
@@ -642,7 +662,7 @@ def open_probe(world, obs, kw, val, num, form, nhist, keep):
     if h.before is None or u64(h.before) != bound:
         obs.bad.append(('C15:bound-differs', 'open(%s): connection bound %r, expected %d'
                         % (ctx, h.before and u64(h.before), bound)))
-    oids = sorted(rec.all_oids)
+    oids = rec.oids()
     real = real_reads(h, oids, minimize=True)      # (a pooled connection of the same bound may be reused)
     check_reads(obs, 'open', 'C15:read-differs', real, expected_reads(rec, bound, oids), ctx)
     model_reads(obs, hk, rec, bound, oids)
@@ -727,7 +747,7 @@ def run_case(case, tmp, full=True):
             except ValueError:
                 obs.model('hopen2 %d %d' % (rec.ltid(), rec.ltid()), 'err:ValueError')
             # live connections keep committing while the kept historical connections are open
-            oids0 = sorted(rec.all_oids)
+            oids0 = rec.oids()
             snap = {id(h): real_reads(h, oids0) for h, _, _, _, _ in kept}
             live = world.conns[0]
             for j, op in enumerate(case['later']):
@@ -749,11 +769,12 @@ def run_case(case, tmp, full=True):
                     elif mode == 2:
                         tm.begin()
                         obs.model('hpoll %d' % hk, 'ok')
-                    oids = sorted(rec.all_oids)
+                    oids = rec.oids()
                     real = real_reads(h, oids, minimize=(mode == 3))
                     ok = check_reads(obs, 'after later commit', 'C15:moved-after-commit', real,
                                      expected_reads(rec, bound, oids), ctx)
-                    if ok and real[:len(snap[id(h)])] != snap[id(h)] and not obs.bad:
+                    if ok and oids[:len(oids0)] == oids0 and real[:len(snap[id(h)])] != snap[id(h)] \
+                            and not obs.bad:
                         obs.bad.append(('C15:moved-after-commit', '%s: reads changed after a later commit' % ctx))
                     if mode == 3:
                         model_reads(obs, hk, rec, bound, oids)
@@ -778,7 +799,7 @@ def run_case(case, tmp, full=True):
             if kept:
                 h, tm, bound, hk, ctx = kept[0]
                 h2 = world.db.open(before=p64(bound))
-                oids = sorted(rec.all_oids)
+                oids = rec.oids()
                 check_reads(obs, 'pooled historical reopen', 'C15:read-differs', real_reads(h2, oids),
                             expected_reads(rec, bound, oids), ctx)
                 if h2 is h:
@@ -854,7 +875,7 @@ def run_sched_section(case, tmp, obs):
             out = []
             for rnd in range(3):
                 h = db.open(tmr, before=p64(bound))
-                oids = sorted(rec.all_oids)
+                oids = rec.oids()
                 out.append(real_reads(h, oids, minimize=(rnd == 1)))
                 tmr.abort()
                 out.append(real_reads(h, oids))
@@ -872,7 +893,7 @@ def run_sched_section(case, tmp, obs):
                             % (res['deadlock'], {k: repr(v)[:200] for k, v in res['errors'].items()})))
         else:
             for i, b in enumerate(bounds):
-                exp = expected_reads(rec, b, sorted(rec.all_oids))
+                exp = expected_reads(rec, b, rec.oids())
                 for got in results.get('h%d' % i, []):
                     obs.nprobe += 1
                     if not check_reads(obs, 'under concurrent commits', 'C15:moved-after-commit', got, exp,
@@ -1054,7 +1075,7 @@ def run_multi_section(case, tmp, obs):
                 h = dbs['one'].open(htm, **{kw: p64(v)})
                 obs.nprobe += 1
                 obs.count('probe:multi:' + kw)
-                oids2 = sorted(rec2.all_oids)
+                oids2 = rec2.oids()
                 real, h2 = real_multi(h, oids2)
                 check_reads(obs, 'multi-database open', 'C15:multi-read-differs', real,
                             expected_multi(rec1, rec2, bound, oids2), ctx)
@@ -1104,11 +1125,26 @@ def run_multi_section(case, tmp, obs):
                     kept.append((h, htm, bound, ctx))
                 else:
                     h.close()
+                    # database 'two' opened on its own at the SAME bound right after 'one' returned its
+                    # historical connection for that bound to its pool
+                    if bound <= rec2.ltid() + 1:
+                        t2 = transaction.TransactionManager()
+                        hd = dbs['two'].open(t2, before=p64(bound))
+                        obs.nprobe += 1
+                        obs.count('probe:multi:two-direct')
+                        if hd.db() is not dbs['two']:
+                            obs.bad.append(('C15:multi-foreign-connection', '%s: database "two" opened at the same '
+                                            'bound was handed a connection of database %r'
+                                            % (ctx, hd.db().database_name)))
+                        check_reads(obs, 'database "two" opened directly', 'C15:multi-read-differs',
+                                    real_reads(hd, oids2, minimize=True), expected_reads(rec2, bound, oids2), ctx)
+                        t2.abort()
+                        hd.close()
             # a bound that is fine for 'one' but more than one past the newest transaction of 'two'
             if rec1.ltid() > rec2.ltid() + 1:
                 b = rec1.ltid() + 1
                 hx = dbs['one'].open(transaction.TransactionManager(), at=p64(rec1.ltid()))
-                oids2 = sorted(rec2.all_oids)
+                oids2 = rec2.oids()
                 try:
                     real, _ = real_multi(hx, oids2)
                     check_reads(obs, 'multi-database, other database older than the bound',
@@ -1132,7 +1168,7 @@ def run_multi_section(case, tmp, obs):
                     elif (j % 3) == 2:
                         h.cacheMinimize()
                         h.get_connection('two').cacheMinimize()
-                    oids2 = sorted(rec2.all_oids)
+                    oids2 = rec2.oids()
                     real, _ = real_multi(h, oids2)
                     check_reads(obs, 'multi-database after later commit', 'C15:multi-moved-after-commit', real,
                                 expected_multi(rec1, rec2, bound, oids2), ctx)
@@ -1264,8 +1300,9 @@ def main(argv=None):
                    'lies strictly inside the history and a later commit writes an oid it had read; distinct by '
                    'hash of the case',
               assumptions=['TimeStamp.laterThan(t) = t + 1 (DESIGN 6.3; generators keep the low 32 bits away from '
-                           'all ones)', 'pack only with pack_gc=False and bounds later than the pack time '
-                           '(what pack may remove is C07)'])
+                           'all ones)', 'FileStorage packs with pack_gc=False, MappingStorage packs with garbage collection and '
+                           'objects unreachable from the pack time on are left out of the by-oid read-outs; only '
+                           'bounds later than the pack time are probed (what pack may remove is C07)'])
 
 
 def _worker(args):
